@@ -116,3 +116,186 @@ Example C11_routing_example :
                     (Some (mk_state "onerr" (Some [("a", JNum 4); ("actionError", err_text); ("error", err_text)])))
                     None []).
 Proof. exact loop_spec_routes. Qed.
+
+(** * The post phase: export of the result, text of the thrown value
+
+    Model/ConcJsExport.v extends the protocol with the interpreted code that
+    runs after RunProgram has returned - a getter of the returned object
+    (export, ecmascript.go:348) or the toString of the thrown value
+    (plainError, ecmascript.go:352) - and with the two switches
+    [post_before_cancel] and [post_trapped]; [repaired_variant] is the code,
+    [old_order] the code before the repairs D50/D51/D53. *)
+From Sheens Require Import Model.ConcJsExport Proofs.JsTimeoutExport.
+
+(** once the flag is set at most one more unit of interpreted code is
+    executed, of the main script or of the post phase, in every variant *)
+Theorem C11_export_stop_after_flag :
+  forall v ls s, x_flag s = true -> xticks_taken v ls s <= 1.
+Proof. exact xstop_after_flag. Qed.
+Print Assumptions C11_export_stop_after_flag.
+
+(** the watcher's step stays enabled from the end of the context on, during
+    the post phase too *)
+Theorem C11_export_watch_enabled :
+  forall e main thr post s,
+  xreach repaired_variant (xinit repaired_variant e main thr post) s -> x_ctx_done s = true ->
+  (exists s', xstep repaired_variant Watch s = Some s') \/ x_flag s = true.
+Proof. exact xwatch_enabled. Qed.
+Print Assumptions C11_export_watch_enabled.
+
+(** a script that is endless in its main part or in its post phase is
+    reported as Interrupted under every fair schedule (the shape of
+    C11_fair_schedule_interrupts) *)
+Theorem C11_export_phase_interrupted :
+  forall e main thr post p0 p1 p2 p3, endless_prog main post ->
+  x_returned (xrun repaired_variant (p0 ++ Expire :: p1 ++ Watch :: p2 ++ Tick :: p3 ++ [Finish])
+                   (xinit repaired_variant e main thr post))
+  = Some XInterrupted.
+Proof. exact xfair_schedule_interrupts. Qed.
+Print Assumptions C11_export_phase_interrupted.
+
+(** in particular when the main script (k+1 units, returning or throwing) is
+    over and the endless getter / toString is running when the context ends *)
+Theorem C11_export_phase_interrupted_in_post :
+  forall k thr pt p0 p1 p2 p3,
+  let s := xrun repaired_variant (repeat Tick (S k)) (xinit repaired_variant false (Some k) thr (PostRun None pt)) in
+  x_script s = XPost None pt thr
+  /\ x_returned s = None
+  /\ x_returned (xrun repaired_variant (p0 ++ Expire :: p1 ++ Watch :: p2 ++ Tick :: p3 ++ [Finish]) s)
+     = Some XInterrupted.
+Proof. exact endless_post_interrupted. Qed.
+Print Assumptions C11_export_phase_interrupted_in_post.
+
+Theorem C11_export_result_endless :
+  forall e main thr post s o, endless_prog main post ->
+  xreach repaired_variant (xinit repaired_variant e main thr post) s -> x_returned s = Some o -> o = XInterrupted.
+Proof. exact xinfinite_only_interrupted. Qed.
+Print Assumptions C11_export_result_endless.
+
+(** as long as the context does not end, whatever is returned, under whatever
+    schedule, is the script's own result - or the error of a post phase that
+    throws - never Interrupted, never a panic *)
+Theorem C11_export_phase_result :
+  forall main thr post ls o, ~ In Expire ls ->
+  x_returned (xrun repaired_variant ls (xinit repaired_variant false main thr post)) = Some o ->
+  o = expected thr post.
+Proof. exact result_is_the_scripts. Qed.
+Print Assumptions C11_export_phase_result.
+
+Theorem C11_export_no_spurious_interrupt :
+  forall main thr post ls, ~ In Expire ls ->
+  x_returned (xrun repaired_variant ls (xinit repaired_variant false main thr post)) <> Some XInterrupted.
+Proof. exact xno_spurious_interrupt. Qed.
+Print Assumptions C11_export_no_spurious_interrupt.
+
+(** a finite post phase of j+1 units completes after its turns *)
+Theorem C11_export_phase_completes :
+  forall k thr j,
+  x_returned (xrun repaired_variant (repeat Tick (S k) ++ repeat Tick (S j) ++ [Finish])
+                   (xinit repaired_variant false (Some k) thr (PostRun (Some j) false)))
+  = Some (script_result thr).
+Proof. exact finite_post_completes. Qed.
+Print Assumptions C11_export_phase_completes.
+
+Theorem C11_export_phase_throw_is_error :
+  forall k thr j,
+  x_returned (xrun repaired_variant (repeat Tick (S k) ++ repeat Tick (S j) ++ [Finish])
+                   (xinit repaired_variant false (Some k) thr (PostRun (Some j) true)))
+  = Some XPostFailed.
+Proof. exact throwing_post_is_an_error. Qed.
+Print Assumptions C11_export_phase_throw_is_error.
+
+(** no panic leaves Exec when the post phase is trapped *)
+Theorem C11_export_no_crash : forall v, post_trapped v = true -> no_crash_for v.
+Proof. exact trapped_never_crashes. Qed.
+Print Assumptions C11_export_no_crash.
+
+(** no goroutine outlives the call *)
+Theorem C11_export_phase_no_leak :
+  forall e main thr post s,
+  xreach repaired_variant (xinit repaired_variant e main thr post) s -> x_returned s <> None ->
+  x_ictx_done s = true /\ xwatcher_blocked repaired_variant s = false.
+Proof. exact xno_leak. Qed.
+Print Assumptions C11_export_phase_no_leak.
+
+Theorem C11_export_watcher_exits :
+  forall e main thr post s,
+  xreach repaired_variant (xinit repaired_variant e main thr post) s -> x_returned s <> None ->
+  forall p q, x_watcher (xrun repaired_variant (p ++ Watch :: q) s) = Exited.
+Proof. exact xwatcher_exits_after_return. Qed.
+Print Assumptions C11_export_watcher_exits.
+
+(** the old order: post phase after cancel() and under no trap *)
+Theorem C11_export_after_cancel_refuted : ~ xfair_interrupts_for old_order.
+Proof. exact old_order_not_interrupted. Qed.
+Print Assumptions C11_export_after_cancel_refuted.
+
+(** ... no schedule whatsoever reports an interruption of the post phase *)
+Theorem C11_export_after_cancel_never_interrupted :
+  forall s ls lft thr mt, x_script s = XPost lft thr mt -> x_returned s = None ->
+  x_returned (xrun old_order ls s) <> Some XInterrupted.
+Proof. exact old_order_never_interrupts_post. Qed.
+Print Assumptions C11_export_after_cancel_never_interrupted.
+
+(** ... what happens instead: cancel() wakes the watcher, its Interrupt hits
+    the endless getter, the panic leaves Exec - with or without an end of the
+    context *)
+Theorem C11_export_after_cancel_panics :
+  forall e main thr post s pt mt p0 p1 p2 p3,
+  xreach old_order (xinit old_order e main thr post) s -> x_script s = XPost None pt mt ->
+  x_returned (xrun old_order (p0 ++ Finish :: p1 ++ Watch :: p2 ++ Tick :: p3 ++ [Finish]) s) = Some XCrashed.
+Proof. exact old_order_endless_post_panics. Qed.
+Print Assumptions C11_export_after_cancel_panics.
+
+(** ... and under a trap the old order reports interruptions that never were *)
+Theorem C11_export_after_cancel_trapped_refuted : ~ xno_spurious_for old_order_trapped.
+Proof. exact old_order_trapped_spurious. Qed.
+Print Assumptions C11_export_after_cancel_trapped_refuted.
+
+(** a throwing getter / toString outside the trap is a panic *)
+Theorem C11_export_outside_trap_crashes_refuted : ~ no_crash_for old_order.
+Proof. exact old_order_crashes. Qed.
+Print Assumptions C11_export_outside_trap_crashes_refuted.
+
+Theorem C11_export_untrapped_refuted : ~ no_crash_for untrapped /\ ~ xno_leak_for untrapped.
+Proof. exact (conj untrapped_crashes untrapped_leaks). Qed.
+Print Assumptions C11_export_untrapped_refuted.
+
+(** the repaired code has all four properties *)
+Theorem C11_export_repaired :
+  xfair_interrupts_for repaired_variant /\ no_crash_for repaired_variant
+  /\ xno_spurious_for repaired_variant /\ xno_leak_for repaired_variant.
+Proof. exact (conj repaired_fair_interrupts (conj repaired_no_crash (conj repaired_no_spurious repaired_no_leak))). Qed.
+Print Assumptions C11_export_repaired.
+
+(** the protocol of ConcJs.v is the special case without a post phase: every
+    execution of every variant under every schedule is the projection of the
+    execution of the extended system, whatever the new switches say *)
+Theorem C11_export_conservative :
+  forall b before trapped e k thr ls,
+  run_labels b ls (init b e k)
+  = proj (xrun (mk_xvariant b before trapped) ls (xinit (mk_xvariant b before trapped) e k thr PostNone)).
+Proof. exact conservative. Qed.
+Print Assumptions C11_export_conservative.
+
+Example C11_export_nonvacuous :
+  x_returned (xrun repaired_variant [Tick; Tick; Expire; Watch; Tick; Finish]
+                   (xinit repaired_variant false (Some 0) false (PostRun None false))) = Some XInterrupted
+  /\ x_returned (xrun old_order [Tick; Finish; Tick; Expire; Watch; Tick; Finish]
+                      (xinit old_order false (Some 0) false (PostRun None false))) = Some XCrashed
+  /\ x_returned (xrun repaired_variant [Tick; Tick; Tick; Finish]
+                      (xinit repaired_variant false (Some 0) false (PostRun (Some 1) false))) = Some XFinished
+  /\ x_returned (xrun repaired_variant [Tick; Tick; Finish]
+                      (xinit repaired_variant false (Some 0) true (PostRun (Some 0) false))) = Some XThrew
+  /\ x_returned (xrun repaired_variant [Tick; Tick; Finish]
+                      (xinit repaired_variant false (Some 0) false (PostRun (Some 0) true))) = Some XPostFailed
+  /\ x_returned (xrun old_order [Tick; Finish; Tick; Finish]
+                      (xinit old_order false (Some 0) false (PostRun (Some 0) true))) = Some XCrashed
+  /\ xwatcher_blocked repaired_variant
+       (xrun repaired_variant [Tick; Tick; Finish] (xinit repaired_variant false (Some 0) false (PostRun (Some 0) false)))
+     = false
+  /\ x_watcher (xrun repaired_variant [Tick; Tick; Finish; Watch]
+                     (xinit repaired_variant false (Some 0) false (PostRun (Some 0) false))) = Exited
+  /\ xticks_taken repaired_variant [Tick; Tick; Expire; Watch; Tick; Tick; Tick]
+       (xinit repaired_variant false (Some 0) false (PostRun None false)) = 3.
+Proof. exact export_examples. Qed.
